@@ -323,7 +323,7 @@ def body(chk: check.Check):
         chk.sample(dict(names_by_role=key[0], order=key[1], free=rec['free'], dict=rec['dict'], clash=rec['clash'],
                         expected_free_names=[name(c) for c in rec['free_names']], expected_ll=str(F(*rec['ll']))))
         for m in val['mismatches']:
-            chk.violation('replay:' + m['what'].split(':')[0][:40], dict(names=key[0], order=key[1], free=rec['free'], dict=rec['dict'], **m),
+            chk.violation('replay:' + m['what'].split(':')[0][:40], {**dict(names=key[0], order=key[1], free=rec['free'], dict_roles=rec['dict']), **m},
                           match=dict(kind='value', clash=rec['clash']))
     # estimation on a sample of clash-free behaviours
     rng = np.random.default_rng(chk.seed)
@@ -336,7 +336,7 @@ def body(chk: check.Check):
             chk.violation(f'estimate:{st}', dict(error=val, names=[name(c) for c in rec['ren']]), match=dict(kind='exception'))
             continue
         for m in val['mismatches']:
-            chk.violation('estimate:' + m['what'][:40], dict(names=[name(c) for c in rec['ren']], order=rec['ord'], **m), match=dict(kind='estimate'))
+            chk.violation('estimate:' + m['what'][:40], {**dict(names=[name(c) for c in rec['ren']], order=rec['ord']), **m}, match=dict(kind='estimate'))
     chk.extra['estimations'] = len(sub)
     # negative controls: expected tables of another renaming / swapped dictionary values must be reported
     import copy
